@@ -51,11 +51,12 @@ class validate(DataStreamProcessor):
         return func
 
     def process_resource(self, res):
-        if self.resources.match(res.res.name):
+        if self.matcher.match(res.res.name):
             yield from self.validator(res)
         else:
             yield from super().process_resource(res)
 
     def process_datapackage(self, dp):
-        self.resources = ResourceMatcher(self.resources, dp)
+        # Keep the selector as given, so that the same flow can run again
+        self.matcher = ResourceMatcher(self.resources, dp)
         return super().process_datapackage(dp)
